@@ -22,6 +22,7 @@ import (
 	"go/ast"
 	"go/token"
 	"go/types"
+	"strings"
 
 	"golang.org/x/tools/go/cfg"
 )
@@ -219,7 +220,16 @@ func c11TextCursorRules(c *Ctx) {
 			key = fi.Name + "/a line break starts a new row at column 0"
 			switch {
 			case len(nlPol) == 0:
-				c.undecided("C11.k", key, fd.Pos(), "no test of a cluster for a line break found in %s", fi.Name)
+				// no branch of the function is recognisably the line-break branch (the test is part of a larger
+				// condition, sits in a table, is derived from the segmenter's results ...): the statement itself is
+				// decided by what the function does on small inputs (c11o.go)
+				if r := c11oEvaluate(c, short); !r.decided() {
+					c.undecided("C11.k", key, fd.Pos(), "no test of a cluster for a line break found in %s", fi.Name)
+				} else if f := c11oFirstFail(r, "o2", "o1", "o3"); f != nil {
+					c.bad("C11.k", key, fd.Pos(), "no test of a cluster for a line break found in %s, and by evaluation %s: %s", fi.Name, f.input, f.what)
+				} else {
+					c.ok("C11.k", key, fd.Pos(), "no branch is recognisably the line-break branch; by evaluation on %d inputs (C11.o) the first cluster after every line break lies at column 0 of a new row", r.runs)
+				}
 			case kv.bad != "":
 				c.bad("C11.k", key, fd.Pos(), "%s: a line break that does not start a new row (text after it is placed in the wrong cells)", kv.bad)
 			case kv.judged == 0:
@@ -317,6 +327,20 @@ func c11NewlineTestAnyShape(c *Ctx, rule, name string, fi *FuncInfo) int {
 			c.ok(rule, key, cd.Expr.Pos(), "%s", why)
 		} else {
 			c.bad(rule, key, cd.Expr.Pos(), "%s: CR LF is a single grapheme cluster (\"\\r\\n\"), so a text with CRLF line terminators is laid out without line breaks", why)
+		}
+	}
+	if found == 0 && strings.HasPrefix(name, "vaxis.Window.") {
+		// no condition is recognisably the test (it is part of a larger condition, written with an index, a table ...):
+		// what the rule stands for — LF and the single cluster CR LF both start a new row — is decided by what the
+		// function does on small inputs over an alphabet with both terminators (c11o.go)
+		if r := c11oEvaluate(c, strings.TrimPrefix(name, "vaxis.Window.")); r.decided() {
+			found++
+			key := name + "/line break recognised by containment of a newline in the cluster"
+			if f := c11oFirstFail(r, "o2", "o1", "o3"); f != nil {
+				c.bad(rule, key, fi.Decl.Pos(), "no newline test of a recognised form, and by evaluation %s: %s", f.input, f.what)
+			} else {
+				c.ok(rule, key, fi.Decl.Pos(), "no newline test of a recognised form; by evaluation on %d inputs over an alphabet with LF and CR LF (C11.o) every line terminator starts a new row and none is stored in a cell", r.runs)
+			}
 		}
 	}
 	return found
